@@ -51,12 +51,24 @@ def render(model):
     lines = ["[circus]", "check_delay = -1",
              "endpoint = tcp://127.0.0.1:1",
              "pubsub_endpoint = tcp://127.0.0.1:2", ""]
+    for sk in model.get("sockets") or []:
+        # managed sockets are never edited: their sections stay fixed
+        lines += ["[socket:%s]" % sk["name"], "host = 127.0.0.1",
+                  "port = 0"]
+        if sk.get("proto"):
+            lines.append("proto = %s" % sk["proto"])
+        lines.append("")
     for name in model["order"]:
         wm = model["watchers"][name]
-        lines += ["[watcher:%s]" % name, "cmd = %s" % wm["cmd"],
+        cmdline = wm["cmd"]
+        if wm.get("socket"):
+            cmdline += " --fd $(circus.sockets.%s)" % wm["socket"]
+        lines += ["[watcher:%s]" % name, "cmd = %s" % cmdline,
                   "numprocesses = %d" % wm["numprocesses"],
                   "graceful_timeout = %s" % wm["graceful_timeout"],
                   "priority = %d" % wm["priority"]]
+        if wm.get("socket"):
+            lines.append("use_sockets = True")
         if wm.get("myopt") is not None:
             lines.append("myopt = %s" % wm["myopt"])
         if wm.get("args") is not None:
@@ -291,6 +303,12 @@ def _strategy():
         order = names[:n0]
         model = {"order": list(order),
                  "watchers": dict((n, draw(spec())) for n in order)}
+        if draw(st.integers(0, 2)) == 0:
+            model["sockets"] = [{"name": "web", "proto": draw(
+                st.sampled_from([None, "tcp"]))}]
+            for n in order:
+                if draw(st.booleans()):
+                    model["watchers"][n]["socket"] = "web"
         if draw(st.integers(0, 3)) == 0:
             model["plugins"] = [{"name": "stats",
                                  "priority": draw(st.sampled_from([1, 5]))}]
